@@ -93,6 +93,20 @@ def _extra(c, io, build):
     return fs
 
 
+def _hang(c, io, build):
+    """a run that does not return under an option variant while (unless it is the default-options run itself that
+    spins) the default run of the same computation does"""
+    import re
+    note = (io["Hang"][0].get("note") if io.get("Hang") else "") or ""
+    m = re.match(r"variant (\d+)", note)
+    if not m or int(m.group(1)) >= len(c.get("variants", [])):
+        return []
+    v = c["variants"][int(m.group(1))]
+    on = sorted(k for k, x in v["options"].items() if x) + sorted("no-" + k for k, x in v["options"].items() if not x)
+    return [dict(clause="C20:options-inert", site="does-not-terminate:%s" % ",".join(on),
+                 msg="with default options the computation returns; with options %s it never does" % on)]
+
+
 # a sibling flushes the batch another task is waiting on (synchronous item.value()): the wait loop then finds no
 # batch to flush - the path on which DUMP_FLUSH_BATCH used to matter
 _SIBLING_FLUSH = {
@@ -130,9 +144,37 @@ def _keep_guard(fault):
 
 _KEEP_GUARD = [_keep_guard(None), _keep_guard({"resume": [1, 77]})]
 
+# scenario classes in which an option could matter: flush bodies that leave items unset (ENABLE_COMPLEX_ASSERTIONS off),
+# tasks killed by a context whose resume()/pause() raises while perf stats are collected
+_NOASSERT_SKIP = {
+    "roots": [[{"op": "try", "body": [{"op": "yield", "x": "x1", "s": {"tuple": [
+        {"new": {"item": [0, 1, {"set": 1}]}}, {"new": {"item": [0, 2, "skip"]}}, {"new": {"item": [1, 3, "skip"]}}]}}],
+        "x": "e1", "handler": []}, {"op": "return", "e": 0}]],
+    "params": {"kinds": {}},
+    "variants": [{"options": {"ENABLE_COMPLEX_ASSERTIONS": False}}],
+}
+_PERF_CTX_FAULT = {
+    "roots": [[{"op": "yield", "x": "x1", "s": {"tuple": [
+        {"new": {"task": [{"op": "with", "c": {"async": [1, {"resume": [2, 41]}]}, "body": [
+            {"op": "yield", "x": "a1", "s": {"new": {"task": [
+                {"op": "yield", "x": "b1", "s": {"new": {"item": [0, 1, {"set": 1}]}}},
+                {"op": "yield", "x": "b2", "s": {"new": {"item": [1, 2, {"set": 2}]}}}, {"op": "return", "e": {"var": "b2"}}]}}}]},
+            {"op": "return", "e": 0}]}},
+        {"new": {"task": [{"op": "yield", "x": "c1", "s": {"new": {"item": [0, 3, {"set": 3}]}}},
+                          {"op": "yield", "x": "c2", "s": {"new": {"item": [1, 4, {"set": 4}]}}}, {"op": "return", "e": 0}]}}]}},
+        {"op": "return", "e": 0}]],
+    "params": {"kinds": {}},
+    "variants": [{"options": {"COLLECT_PERF_STATS": True}, "clock": [1]}, {"options": {"KEEP_DEPENDENCIES": True}}],
+}
+_EXTRA = [
+    (1, dict(_base, name="skip-noassert", p_item_skip=0.45, p_item=0.6)),
+    (1, dict(_base, name="ctx-faults", p_ctx_fault=0.7, p_with=0.45, p_item=0.55, p_nonasync=0.1)),
+]
+_CORPUS_SRC = [_SIBLING_FLUSH] + _KEEP_GUARD + [_NOASSERT_SKIP, _PERF_CTX_FAULT]
+
 mach.install(globals(), "C20", NAMES, ("C20:",), PROFILES, n_quick=200, n_thorough=2500, nontrivial=_nontrivial,
-             extra_monitors=_extra, corpus=[_SIBLING_FLUSH] + _KEEP_GUARD, level="proof")
-for _c, _src in zip(CORPUS, [_SIBLING_FLUSH] + _KEEP_GUARD):
+             extra_monitors=_extra, hang_monitor=_hang, corpus=_CORPUS_SRC, level="proof", extra_gen=mach.extra_profiles(_EXTRA, 40, 600))
+for _c, _src in zip(CORPUS, _CORPUS_SRC):
     _c["variants"] = _src["variants"]
     _c["tree"]["variants"] = _c["variants"]
 
@@ -145,6 +187,11 @@ def gen_cases(rng, tier):
     for c in cs:
         _distinct_prios(c, rng)
         c["variants"] = _variants(rng, 3 if tier == "quick" else 6)
+        prof = (c.get("meta") or {}).get("profile")
+        if prof == "skip-noassert":
+            c["variants"][0] = {"options": {"ENABLE_COMPLEX_ASSERTIONS": False}}
+        elif prof == "ctx-faults":
+            c["variants"][0] = {"options": {"COLLECT_PERF_STATS": True}, "clock": [1]}
         mach.finish_case(c, c.get("meta"))
         c["tree"]["variants"] = c["variants"]
     return cs
